@@ -180,9 +180,14 @@ inline Verdict execute(const std::string& target, const Plan& plan, const std::s
       long line = atol(err.c_str() + p + 25);
       if (line < 1 || line > nlines(B) + 1) return Verdict::fail("C11:line-out-of-range:g3", 0, fmt("diagnostic names line %ld (%ld lines)", line, nlines(B)));
       st.add("refusals_located");
-    } else if (err.find("catch ... ") != std::string::npos)
+    } else if (err.find("catch ... ") != std::string::npos) {
+      // gama-g3 reports every other exception this way, std::bad_alloc for a <dim> of 2e9 included.  Resource refusals
+      // are exempt from the line clause: DataParser on the same bytes tells which kind it was.
+      Outcome dp = run_data(B, {}, false); st.add("parses");
+      if (dp.kind == "resource") { st.add("resource_refusals"); return Verdict(); }
       // (a document without a g3-model is also "error on reading XML input data", but that is absence, not a located fault)
       return Verdict::fail("C11:refusal-without-line:g3", 0, "the parser raised something other than a parser exception; gama-g3 refused the input without naming a line: " + err.substr(0, 200));
+    }
     return Verdict();
   }
   return Verdict();
